@@ -4,7 +4,8 @@
 cd /verif || exit 2
 git -C /repo diff --quiet || { echo "/repo has uncommitted changes; aborting"; exit 2; }
 pass=0; fail=0
-for d in seeded/*/; do
+# SEED_GLOB (optional): only the seeds whose directory name matches, e.g. SEED_GLOB='*-[kl]'
+for d in seeded/${SEED_GLOB:-*}/; do
   id=$(basename $d)
   prop=$(python3 -c "import json;m=json.load(open('$d/meta.json'));print(m.get('detect_with') or m['breaks_property'])")
   if ! git -C /repo apply --check /verif/$d/patch.diff 2>/dev/null; then echo "$id: PATCH DOES NOT APPLY"; fail=$((fail+1)); continue; fi
